@@ -25,7 +25,8 @@ k of them (None = all sequences up to the horizon).
 * Every execution runs under a wall-clock guard (interval timer); a hang is a harness error.
 * Work is sharded by prefix: the first levels are expanded one execution per item (in parallel) until there are
   `target_tasks` pending sub-trees, which are then explored depth-first by the workers.  Counts and the set of
-  outcome keys do not depend on the number of workers.
+  outcome keys do not depend on the number of workers.  `explore_many` runs several explorations through the same
+  few pool barriers.
 """
 import importlib
 import json
@@ -245,7 +246,10 @@ def work(payload):
     n = p.get("offset", 0)
     c0 = time.process_time()
     if p["one_level"]:
-        for prefix, expect in p["items"]:
+        for it_no, (prefix, expect) in enumerate(p["items"]):
+            if deadline and time.time() > deadline:
+                agg.unexplored += len(p["items"]) - it_no
+                break
             ex = run_one(runner, prefix, horizon, expect, wall)
             agg.add(ex)
             n += 1
@@ -279,6 +283,76 @@ def _chunks(items, n):
     return [items[i::n] for i in range(n)]
 
 
+def explore_many(pool, mod, factory, specs, target_tasks=256, max_split_rounds=6, deadline=None, exec_wall=30.0,
+                 log=None):
+    """Several explorations at once (few pool barriers, all workers busy even when single explorations are small).
+
+    specs: list of dict(cfg=..., horizon=..., bound_deviations=None, validate_stride=1), most valuable first: when
+    `deadline` (absolute time) passes, the work not yet started is dropped from the END of the list and reported
+    (`exhaustive: False`, `unexplored_subtrees`), never silently.  Returns one result dict per spec (see `explore`)."""
+    n = len(specs)
+    base = [{"mod": mod, "factory": factory, "cfg": sp["cfg"], "horizon": sp["horizon"],
+             "bound": sp.get("bound_deviations"), "stride": sp.get("validate_stride", 1), "wall": exec_wall,
+             "deadline": deadline} for sp in specs]
+    total = [Agg() for _ in range(n)]
+    pending = [[((), ())] for _ in range(n)]
+    rounds = [0] * n
+    pool_deadline = (deadline + exec_wall) if deadline else None
+
+    def submit(tagged):
+        payloads = [p for _, p in tagged]
+        res = pool.map(MOD, "work", payloads, deadline=pool_deadline) if pool is not None else [work(x) for x in payloads]
+        if len(res) < len(payloads):
+            raise HarnessError("choice exploration: the pool returned %d of %d parts" % (len(res), len(payloads)))
+        return [(i, r) for (i, _), r in zip(tagged, res)]
+
+    while True:
+        if deadline and time.time() > deadline:
+            break
+        tagged = []
+        for i in range(n):
+            if pending[i] and rounds[i] < max_split_rounds and len(pending[i]) < target_tasks:
+                off = 0
+                for part in _chunks(pending[i], target_tasks):
+                    tagged.append((i, dict(base[i], items=part, one_level=True, offset=off)))
+                    off += len(part)
+                pending[i] = []
+                rounds[i] += 1
+        if not tagged:
+            break
+        for i, (agg, ch) in submit(tagged):
+            total[i].merge(agg)
+            pending[i] += ch
+        for i in range(n):
+            # heavy sub-trees (short prefixes) first; stable, so the order stays canonical
+            pending[i].sort(key=lambda it: len(it[0]))
+    tagged = []
+    for i in range(n):
+        if pending[i]:
+            for part in _chunks(pending[i], target_tasks * 2):
+                tagged.append((i, dict(base[i], items=part, one_level=False, offset=0)))
+    if tagged:
+        for i, (agg, _) in submit(tagged):
+            total[i].merge(agg)
+    out = []
+    for i in range(n):
+        t = total[i]
+        out.append({"states": len(t.keys), "transitions": t.answers, "schedules": t.schedules, "complete": t.complete,
+                    "horizon_hits": t.horizon_hits, "traces_validated_against_impl": t.validated,
+                    "violations": t.violations, "n_violations": t.nviol, "stats": dict(t.stats), "samples": t.samples,
+                    "keys": t.keys, "max_sequence_length": t.max_len, "split_rounds": rounds[i],
+                    "unexplored_subtrees": t.unexplored, "cpu_s": round(t.cpu_s, 2), "exhaustive": t.unexplored == 0,
+                    "horizon": specs[i]["horizon"], "bound_deviations": specs[i].get("bound_deviations"),
+                    "validate_stride": specs[i].get("validate_stride", 1)})
+        if log:
+            cfg = specs[i]["cfg"]
+            log("CX %s: schedules=%d complete=%d horizon_hits=%d states=%d answers=%d validated=%d violations=%d%s"
+                % (cfg.get("name", factory) if isinstance(cfg, dict) else factory, t.schedules, t.complete,
+                   t.horizon_hits, len(t.keys), t.answers, t.validated, t.nviol,
+                   "" if t.unexplored == 0 else " UNEXPLORED=%d" % t.unexplored))
+    return out
+
+
 def explore(pool, mod, factory, cfg, horizon, bound_deviations=None, validate_stride=1, target_tasks=256,
             max_split_rounds=6, deadline=None, exec_wall=30.0, log=None):
     """Enumerate every choice sequence of `runner.run` within the horizon and the deviation bound.
@@ -286,55 +360,9 @@ def explore(pool, mod, factory, cfg, horizon, bound_deviations=None, validate_st
     Returns a dict: states (distinct outcome keys of complete executions), transitions (environment answers
     consumed), schedules (choice sequences run), complete, horizon_hits, traces_validated_against_impl,
     violations (list, capped) / n_violations, stats, samples, keys (set), exhaustive, unexplored_subtrees."""
-    base = {"mod": mod, "factory": factory, "cfg": cfg, "horizon": horizon, "bound": bound_deviations,
-            "stride": validate_stride, "wall": exec_wall, "deadline": deadline}
-    total = Agg()
-    pending = [((), ())]
-    rounds = 0
-    pool_deadline = (deadline + exec_wall) if deadline else None
-
-    def submit(payloads):
-        res = pool.map(MOD, "work", payloads, deadline=pool_deadline) if pool is not None else [work(x) for x in payloads]
-        if len(res) < len(payloads):
-            raise HarnessError("choice exploration: the pool returned %d of %d parts" % (len(res), len(payloads)))
-        return res
-
-    while pending and rounds < max_split_rounds and len(pending) < target_tasks:
-        if deadline and time.time() > deadline:
-            break
-        parts = _chunks(pending, target_tasks)
-        off, payloads = 0, []
-        for part in parts:
-            payloads.append(dict(base, items=part, one_level=True, offset=off))
-            off += len(part)
-        nxt = []
-        for agg, ch in submit(payloads):
-            total.merge(agg)
-            nxt += ch
-        # heavy sub-trees (short prefixes) first; stable, so the order stays canonical
-        pending = sorted(nxt, key=lambda it: len(it[0]))
-        rounds += 1
-    if pending:
-        if deadline and time.time() > deadline:
-            total.unexplored += len(pending)
-        else:
-            parts = _chunks(pending, target_tasks * 2)
-            payloads = [dict(base, items=part, one_level=False, offset=0) for part in parts]
-            for agg, _ in submit(payloads):
-                total.merge(agg)
-    res = {"states": len(total.keys), "transitions": total.answers, "schedules": total.schedules,
-           "complete": total.complete, "horizon_hits": total.horizon_hits,
-           "traces_validated_against_impl": total.validated, "violations": total.violations,
-           "n_violations": total.nviol, "stats": dict(total.stats), "samples": total.samples, "keys": total.keys,
-           "max_sequence_length": total.max_len, "split_rounds": rounds, "unexplored_subtrees": total.unexplored,
-           "cpu_s": round(total.cpu_s, 2), "exhaustive": total.unexplored == 0, "horizon": horizon, "bound_deviations": bound_deviations,
-           "validate_stride": validate_stride}
-    if log:
-        log("CX %s: schedules=%d complete=%d horizon_hits=%d states=%d answers=%d validated=%d violations=%d%s"
-            % (cfg.get("name", factory) if isinstance(cfg, dict) else factory, total.schedules, total.complete,
-               total.horizon_hits, len(total.keys), total.answers, total.validated, total.nviol,
-               "" if total.unexplored == 0 else " UNEXPLORED=%d" % total.unexplored))
-    return res
+    return explore_many(pool, mod, factory, [{"cfg": cfg, "horizon": horizon, "bound_deviations": bound_deviations,
+                                              "validate_stride": validate_stride}], target_tasks, max_split_rounds,
+                        deadline, exec_wall, log)[0]
 
 
 def enumerate_local(runner, horizon, bound_deviations=None, validate_stride=0, exec_wall=30.0):
